@@ -43,7 +43,31 @@ LOOP_BOUND = 16
 OPS = ['pos', 'neg', 'add', 'radd', 'sub', 'rsub', 'mul', 'rmul', 'truediv', 'rtruediv', 'floordiv',
        'rfloordiv', 'pow', 'rpow', 'cols']
 TREE_OPS = [OPS.index('add'), OPS.index('neg'), OPS.index('cols'), OPS.index('rsub')]
-COLSETS = {1: [[0]], 2: [[1, 0], [1], [0, 1]], 3: [[2, 0], [1, 2, 0], [1]]}
+# column selectors: (form, selector as JSON, resulting column indices)
+COLSETS = {1: [('list', [0], [0]), ('bools', [True], [0])],
+           2: [('list', [1, 0], [1, 0]), ('list', [1], [1]), ('list', [0, 1], [0, 1]),
+               ('bools', [False, True], [1]), ('arr', [1, 0], [1, 0]), ('slice', [None, None, -1], [1, 0]),
+               ('list', [-1], [1])],
+           3: [('list', [2, 0], [2, 0]), ('list', [1, 2, 0], [1, 2, 0]), ('list', [1], [1]),
+               ('bools', [True, False, True], [0, 2]), ('mask', [False, True, True], [1, 2]),
+               ('slice', [1, 3, None], [1, 2]), ('tuple', [2, 1], [2, 1]), ('uarr', [2, 0], [2, 0])]}
+
+
+def _selector(desc, xp):
+    """the Python object used as column selector (xp: numpy or the model)"""
+    form, sel = desc['form'], desc['sel']
+    if form in ('list', 'bools'):
+        return list(sel)
+    if form == 'tuple':
+        return tuple(sel)
+    if form == 'slice':
+        return slice(*sel)
+    if form == 'mask':
+        return xp.asarray(np.array(sel, dtype=bool))
+    if form == 'uarr':
+        return xp.asarray(np.array(sel, dtype=np.uint32))
+    return xp.asarray(np.array(sel, dtype=np.int64))
+
 
 
 def apply_op(x, op, arg):
@@ -77,8 +101,13 @@ def apply_op(x, op, arg):
     if op == 'rpow':
         return arg ** x
     if op == 'cols':
+        if isinstance(arg, dict):
+            arg = _selector(arg, np if isinstance(x, np.ndarray) else _MODE['xp'])
         return x[:, arg]
     raise ValueError(op)
+
+
+_MODE = {'xp': snp}      # array library of the selectors handed to readers: the model (symbolic run) or NumPy (replay)
 
 
 def configs(tier):
@@ -106,8 +135,14 @@ def configs(tier):
                                 'item': item, 'depth': D, 'first': first, 'second': second,
                                 'nc': 3 if item == 'slice' else 2})
             else:
-                out.append({'kind': 'prog', 'backend': backend, 'K': K, 'dtype': dtype, 'scalar': sk,
-                            'item': item, 'depth': D, 'first': first, 'nc': 3 if item == 'slice' else 2})
+                base = {'kind': 'prog', 'backend': backend, 'K': K, 'dtype': dtype, 'scalar': sk,
+                        'item': item, 'depth': D, 'first': first, 'nc': 3 if item == 'slice' else 2}
+                if OPS[first] == 'cols':
+                    # one configuration per form of the first column selector (parallelism)
+                    for c0 in range(len(COLSETS[base['nc']])):
+                        out.append(dict(base, col0=c0))
+                else:
+                    out.append(base)
     for backend, K, dtype in ([('flat', 2, 'int16'), ('array', 1, 'float32')] if quick else
                               [('flat', 2, 'int16'), ('array', 1, 'float32'), ('flat', 2, 'float32'),
                                ('array', 1, 'int16')]):
@@ -120,14 +155,18 @@ def configs(tier):
     return out
 
 
-def _mkarg(e, op, sk, i, width):
+def _mkarg(e, op, sk, i, width, col0=None):
     """symbolic scalar (or column list) for step i"""
     if op in ('pos', 'neg'):
         return None, None
     if op == 'cols':
         opts = COLSETS[width]
-        c = e.choice('cols%d' % i, list(range(len(opts))))
-        return list(opts[c]), list(opts[c])
+        # every selector form as the first step of a program (one configuration each); later steps and
+        # derivation trees use the three integer lists
+        c = col0 if (i == 0 and col0 is not None) else e.choice('cols%d' % i, [k for k in range(len(opts))
+                                                                               if opts[k][0] == 'list'][:3])
+        d = {'form': opts[c][0], 'sel': list(opts[c][1]), 'idx': list(opts[c][2])}
+        return d, d
     if op == 'pow':
         return 2, 2
     if op == 'rpow':
@@ -170,7 +209,7 @@ def _expected(rec, prog, row, c):
     steps = []
     for op, arg in prog:
         if op == 'cols':
-            colmap = [colmap[k] for k in arg]
+            colmap = [colmap[k] for k in arg['idx']]
         else:
             steps.append((op, arg))
     a = snp._obj((1, 1))
@@ -202,13 +241,14 @@ def run_config(cfg, e):
 
     def fn():
         vfs.reset()
+        _MODE['xp'] = snp
         rec = SymRecording(e, cfg['backend'], cfg['K'], cfg['nc'], cfg['dtype'])
         item, L, rowf, iteminfo = _rows(e, cfg['item'], rec.n)
         progs = {}
 
         def case(ev):
             def conv(p):
-                return [[op, (ev(a) if a is not None and not isinstance(a, list) else a)] for op, a in p]
+                return [[op, (ev(a) if a is not None and not isinstance(a, (list, dict)) else a)] for op, a in p]
             return dict(rec.case(ev), item=iteminfo(ev), kind=cfg['kind'], scalar=cfg['scalar'],
                         progs={k: conv(v) for k, v in progs.items()})
         e.case_builder = case
@@ -222,9 +262,9 @@ def run_config(cfg, e):
                     oi = cfg['first'] if i == 0 else (cfg['second'] if (i == 1 and 'second' in cfg) else
                                                       e.choice('op%d' % i, list(range(len(OPS)))))
                     op = OPS[oi]
-                    arg, parg = _mkarg(e, op, cfg['scalar'], i, width)
+                    arg, parg = _mkarg(e, op, cfg['scalar'], i, width, cfg.get('col0'))
                     if op == 'cols':
-                        width = len(arg)
+                        width = len(arg['idx'])
                     r2 = apply_op(r, op, arg)
                     prog = prog + [(op, parg)]
                     progs['p'] = prog
@@ -245,14 +285,14 @@ def run_config(cfg, e):
                 parent = apply_op(reader, ops[0], a0)
                 pp = [(ops[0], p0)]
                 progs['parent'] = pp
-                wp = len(a0) if ops[0] == 'cols' else rec.nc
+                wp = len(a0['idx']) if ops[0] == 'cols' else rec.nc
                 nops_parent = len(parent._ops)
                 _check_read(e, rec, parent, pp, item, L, rowf, 'parent')
                 a1, p1 = _mkarg(e, ops[1], cfg['scalar'], 1, wp)
                 c1 = apply_op(parent, ops[1], a1)
                 pc1 = pp + [(ops[1], p1)]
                 progs['child1'] = pc1
-                w1 = len(a1) if ops[1] == 'cols' else wp
+                w1 = len(a1['idx']) if ops[1] == 'cols' else wp
                 nops_c1 = len(c1._ops)
                 _check_read(e, rec, parent, pp, item, L, rowf, 'parent after child1')
                 a2, p2 = _mkarg(e, ops[2], cfg['scalar'], 2, wp)
@@ -278,7 +318,7 @@ def run_config(cfg, e):
 
 
 def _conc_arg(op, a, scalar):
-    if a is None or isinstance(a, list):
+    if a is None or isinstance(a, (list, dict)):
         return a
     if op in ('pow', 'rpow'):
         return int(a)
@@ -286,6 +326,7 @@ def _conc_arg(op, a, scalar):
 
 
 def replay(case):
+    _MODE['xp'] = np
     rr = RealRecording(case)
     try:
         reader = rr.reader()
